@@ -101,6 +101,39 @@ PROPS['C13'] = {
     ],
 }
 
+PROPS['C11'] = {
+    'title': 'line_intersection classifies and locates segment crossings exactly',
+    'level': 'proof',
+    'verus': [],
+    'kani': [
+        ('geo', 'c11.rs', r'^c11_k_(classification_lat3|order_invariance)$', 'complete', 'quick'),
+        ('geo', 'c11.rs', r'^c11_k_classification_lat5$', 'complete', 'thorough'),
+        ('geo', 'c11.rs', r'^c11_k_proper_point_in_envelopes$', 'complete', 'thorough'),
+        ('geo', 'c02.rs', r'^c02_k_line_line$', 'complete', 'thorough'),
+    ],
+    'trusted': ['assumed contract of robust::orient2d (exact sign), stubbed by the shared oracle on the lattice',
+                'loop-free harnesses over the whole lattice |c| <= 3 (quick) / 5 (thorough) of integer-valued f64 coordinates: complete for that domain only'],
+    'undecided_clauses': [
+        'proper point within a few ulps of the true crossing (float error analysis)',
+        'inputs off the integer lattice (decided only through the opaque-scalar argument of C03)',
+        'zero-length segments (excluded by precondition: line_intersection returns a zero-length Collinear for a point on a segment)',
+    ],
+}
+
+PROPS['C01'] = {
+    'title': 'relate() returns the true DE-9IM matrix',
+    'level': 'proof',
+    'verus': [],
+    'kani': [
+        ('geo', 'c01.rs', r'^c01_k_', 'complete', 'quick'),
+    ],
+    'trusted': ['only the finite-state components are under contract: IntersectionMatrix cells / masks / setters / compute_disjoint, HasDimensions of the loop-free types'],
+    'undecided_clauses': [
+        'the noded-graph construction (segment intersector, noding, edge-end star labelling) is NOT under contract: "the matrix equals the true matrix for all inputs" is not decided',
+        'transposition and representation-independence of the whole pipeline',
+    ],
+}
+
 NOT_APPLICABLE = {
     'C16': 'every clause is an identity between compositions of sin/cos/atan2/asin/sqrt/tan/ln in f64 (or calls into geographiclib-rs); Verus leaves float arithmetic uninterpreted and CBMC models libm as nondeterministic, so no contract stronger than "returns an f64" is provable',
     'C20': '2-safety hyper-property over runs, thread-pool sizes and hash seeds; Kani has no threads and compiles RandomState/rayon away, Verus cannot parse the rayon/hashbrown code; no contract within reach can express it',
